@@ -334,3 +334,304 @@ Proof.
   - destruct Hin as [->|[]]; reflexivity.
   - lia.
 Qed.
+
+Lemma filter_filter_andb {A} (f g : A -> bool) l : filter f (filter g l) = filter (fun x => g x && f x) l.
+Proof. induction l as [|a l IH]; simpl; auto. destruct (g a); simpl; [destruct (f a); rewrite IH; reflexivity | exact IH]. Qed.
+
+Lemma filter_all_true {A} (f : A -> bool) l : (forall x, In x l -> f x = true) -> filter f l = l.
+Proof. induction l as [|a l IH]; intros H; simpl; auto. rewrite (H a (or_introl eq_refl)). f_equal. apply IH. intros x Hx; apply H; right; auto. Qed.
+
+Section Full.
+  Variable K : Type.
+  Variable kzero : K.
+  Variable kadd : K -> K -> K.
+  Variable kneg : K -> K.
+  Variable kneq : K -> K -> bool.
+  Variable N : nat.
+  Notation s2 := (s2 K).
+  Notation s2key := (s2key K).
+  Notation is_k := (is_k K).
+  Notation signed_r := (signed_r K kneg).
+  Notation phases_agree := (phases_agree K kneq).
+  Notation merged := (merged K kzero kadd kneg).
+  Notation merge_loop := (merge_loop K kzero kadd kneg kneq).
+
+  Definition kz (i : nat) : key := (i, i + N).
+  Definition zs (i : nat) : s2 := mkS2 i (i + N) kzero kzero false.
+
+  (* what the command c returned for pair (i, i+N) must be, in terms of the source squeezers of that pair *)
+  Definition spec_for (B : list s2) (i : nat) (c : s2) : Prop :=
+    match filter (is_k (kz i)) B with
+    | [] => c = zs i
+    | [b] => c = b
+    | bs => c = mkS2 i (i + N) (fold_left kadd (map signed_r (rev bs)) kzero) (last (map sphi (rev bs)) kzero) false
+            /\ phases_agree (rev bs) = true
+    end.
+
+  Definition inD (D : list key) (c : s2) : bool := mem_key (s2key c) D.
+
+  Lemma merged_key k (B : list s2) : s2key (merged k B) = k.
+  Proof. destruct k; reflexivity. Qed.
+
+  (* the merge loop over ANY duplicate-free list of keys, on ANY list: never an IndexError; CircuitError only if the
+     phases of one of the keys disagree; otherwise the result is, as a multiset, one merged command per key of D plus
+     the commands of all other keys *)
+  Lemma merge_loop_spec : forall D (B : list s2), NoDup D ->
+    match merge_loop D B with
+    | IndexErr => False
+    | CircuitErr c => c = 3 /\ exists k, In k D /\ phases_agree (rev (filter (is_k k) B)) = false
+    | Ok out => (forall k, In k D -> phases_agree (rev (filter (is_k k) B)) = true) /\
+                Permutation out (map (fun k => merged k B) D ++ filter (fun c => negb (inD D c)) B)
+    end.
+  Proof.
+    induction D as [|a D IH]; intros B Hnd.
+    - simpl. split; [intros k []|]. rewrite filter_all_true; auto.
+    - rewrite merge_step. destruct (phases_agree (rev (filter (is_k a) B))) eqn:Eph.
+      2:{ split; auto. exists a. split; [left; reflexivity | auto]. }
+      inversion Hnd as [|x l Hna HndD]; subst.
+      set (B' := insert_at (hd 0 (positions a (map s2key B))) (merged a B) (filter (fun c => negb (is_k a c)) B)).
+      assert (Hfil : forall k, k <> a -> filter (is_k k) B' = filter (is_k k) B).
+      { intros k Hne. unfold B'. rewrite filter_insert_at_false.
+        - rewrite filter_filter_andb. apply filter_ext. intros x. unfold Merge.is_k.
+          destruct (key_eqb (s2key x) k) eqn:E1; [|apply andb_false_r].
+          apply key_eqb_eq in E1. destruct (key_eqb (s2key x) a) eqn:E2; auto.
+          apply key_eqb_eq in E2. congruence.
+        - unfold Merge.is_k. rewrite merged_key. destruct (key_eqb a k) eqn:E; auto. apply key_eqb_eq in E. congruence. }
+      specialize (IH B' HndD). destruct (merge_loop D B') as [out|c|].
+      + destruct IH as [IH1 IH2]. split.
+        * intros k [<-|Hk]; auto. rewrite <- Hfil; [apply IH1; auto | intros ->; contradiction].
+        * rewrite IH2.
+          assert (E1 : map (fun k => merged k B') D = map (fun k => merged k B) D).
+          { apply map_ext_in. intros k Hk. unfold Merge.merged. rewrite Hfil; [reflexivity | intros ->; contradiction]. }
+          rewrite E1. simpl map.
+          assert (Hm : negb (inD D (merged a B)) = true).
+          { unfold inD. rewrite merged_key. destruct (mem_key a D) eqn:E; auto. apply mem_key_in in E. contradiction. }
+          unfold B'. rewrite (filter_insert_at_true (fun c => negb (inD D c)) (merged a B) Hm). rewrite filter_filter_andb.
+          assert (E2 : filter (fun x => negb (is_k a x) && negb (inD D x)) B = filter (fun c => negb (inD (a :: D) c)) B).
+          { apply filter_ext. intros x. unfold inD, mem_key, Merge.is_k. simpl. rewrite negb_orb. reflexivity. }
+          rewrite E2. simpl. symmetry. apply Permutation_middle.
+      + destruct IH as [Hc [k [Hk Hph]]]. split; auto. exists k. split; [right; auto|].
+        rewrite <- Hfil; auto. intros ->; contradiction.
+      + contradiction.
+  Qed.
+
+  Lemma count_cmd k (B : list s2) : count_key k (map s2key B) = length (filter (is_k k) B).
+  Proof.
+    induction B as [|a B IH]; simpl; auto. rewrite count_cons. unfold Merge.is_k at 1. rewrite key_eqb_sym.
+    destruct (key_eqb (s2key a) k); simpl; rewrite IH; reflexivity.
+  Qed.
+
+  Lemma filter_single (out : list s2) c : NoDup (map s2key out) -> In c out -> filter (is_k (s2key c)) out = [c].
+  Proof.
+    induction out as [|a t IH]; intros Hn Hin; [contradiction|]. simpl in Hn. inversion Hn as [|x l Hna Hnt]; subst.
+    simpl. destruct Hin as [->|Hin].
+    - unfold Merge.is_k at 1. rewrite key_eqb_refl. f_equal. apply filter_false. intros x Hx. unfold Merge.is_k.
+      destruct (key_eqb (s2key x) (s2key c)) eqn:E; auto. apply key_eqb_eq in E. exfalso; apply Hna. rewrite <- E. apply in_map; auto.
+    - assert (E0 : is_k (s2key c) a = false).
+      { unfold Merge.is_k. destruct (key_eqb (s2key a) (s2key c)) eqn:E; auto. apply key_eqb_eq in E. exfalso. apply Hna. rewrite E. apply in_map; auto. }
+      rewrite E0. apply IH; auto.
+  Qed.
+
+  Lemma kz_inj : Injective kz.
+  Proof. intros i j H. inversion H; auto. Qed.
+
+  Definition AK : list key := map kz (seq 0 N).
+  Lemma AK_nodup : NoDup AK.
+  Proof. apply Injective_map_NoDup; [apply kz_inj | apply seq_NoDup]. Qed.
+  Lemma AK_length : length AK = N.
+  Proof. unfold AK. rewrite map_length, seq_length. reflexivity. Qed.
+  Lemma AK_in k : In k AK <-> exists i, i < N /\ k = kz i.
+  Proof.
+    unfold AK. rewrite in_map_iff. split; intros [i [H1 H2]].
+    - exists i. apply in_seq in H2. split; [lia | auto].
+    - exists i. split; auto. apply in_seq. lia.
+  Qed.
+
+  Lemma length_from_nodup (ks : list key) :
+    NoDup ks -> (forall k, In k ks -> exists i, i < N /\ k = kz i) -> (forall i, i < N -> In (kz i) ks) -> length ks = N.
+  Proof.
+    intros Hn H1 H2. rewrite <- AK_length. apply Nat.le_antisymm.
+    - apply NoDup_incl_length; auto. intros k Hk. apply AK_in. auto.
+    - apply NoDup_incl_length; [apply AK_nodup|]. intros k Hk. apply AK_in in Hk as [i [Hi ->]]. auto.
+  Qed.
+
+  Lemma add_missing_eq miss (B : list s2) : add_missing K kzero N miss B = rev (map zs miss) ++ B.
+  Proof.
+    unfold add_missing. revert B. induction miss as [|a miss IH]; intros B; simpl; auto.
+    rewrite IH. rewrite <- app_assoc. reflexivity.
+  Qed.
+
+  Section Hyps.
+    Variable miss : list nat.
+    Variable B : list s2.
+    Hypothesis Hall : forallb (allowed K N) B = true.
+    Hypothesis Hmiss_nd : NoDup miss.
+    Hypothesis Hmiss : forall i, In i miss <-> i < N /\ ~ In (kz i) (map s2key B).
+
+    Let B1 := rev (map zs miss) ++ B.
+    Let keys1 := map s2key B1.
+
+    Lemma allowed_key c : In c B -> exists i, i < N /\ s2key c = kz i.
+    Proof.
+      intros H. rewrite forallb_forall in Hall. specialize (Hall c H). unfold allowed in Hall.
+      apply andb_prop in Hall as [H1 H2]. apply Nat.ltb_lt in H1. apply Nat.eqb_eq in H2.
+      exists (mi c). split; auto. unfold Model.s2key, kz. rewrite H2. reflexivity.
+    Qed.
+
+    Lemma keys_miss : map s2key (rev (map zs miss)) = rev (map kz miss).
+    Proof. rewrite map_rev, map_map. reflexivity. Qed.
+
+    Lemma keys1_eq : keys1 = rev (map kz miss) ++ map s2key B.
+    Proof. unfold keys1, B1. rewrite map_app, keys_miss. reflexivity. Qed.
+
+    Lemma count_miss k : count_key k (rev (map kz miss)) <= 1.
+    Proof. rewrite count_rev. apply count_nodup. apply Injective_map_NoDup; [apply kz_inj | auto]. Qed.
+
+    Lemma incl1 : forall k, In k keys1 -> exists i, i < N /\ k = kz i.
+    Proof.
+      intros k. rewrite keys1_eq, in_app_iff, <- in_rev, !in_map_iff. intros [[i [<- Hi]]|[c [<- Hc]]].
+      - exists i. split; auto. apply Hmiss in Hi. tauto.
+      - apply allowed_key; auto.
+    Qed.
+
+    Lemma incl2 : forall i, i < N -> In (kz i) keys1.
+    Proof.
+      intros i Hi. rewrite keys1_eq, in_app_iff, <- in_rev.
+      destruct (count_key (kz i) (map s2key B)) eqn:E.
+      - left. apply in_map. apply Hmiss. split; auto. rewrite count_in. lia.
+      - right. apply count_in. lia.
+    Qed.
+
+    Lemma dup1_dupB k : 1 < count_key k keys1 ->
+      count_key k (rev (map kz miss)) = 0 /\ 1 < count_key k (map s2key B).
+    Proof.
+      rewrite keys1_eq, count_app. pose proof (count_miss k) as Hm.
+      destruct (count_key k (rev (map kz miss))) eqn:E; [intros; split; lia|].
+      assert (Hin : In k (rev (map kz miss))) by (apply count_in; lia).
+      rewrite <- in_rev, in_map_iff in Hin. destruct Hin as [i [<- Hi]].
+      apply Hmiss in Hi as [_ Hni]. rewrite count_in in Hni. lia.
+    Qed.
+
+    Lemma spec_from_B1 i c : filter (is_k (kz i)) B1 = [c] -> spec_for B i c.
+    Proof.
+      unfold B1. rewrite filter_app.
+      assert (Hmp : forall x, In x (filter (is_k (kz i)) (rev (map zs miss))) -> x = zs i).
+      { intros x Hx. apply filter_In in Hx as [Hx1 Hx2]. rewrite <- in_rev, in_map_iff in Hx1.
+        destruct Hx1 as [j [<- _]]. unfold Merge.is_k in Hx2. apply key_eqb_eq in Hx2.
+        change (s2key (zs j)) with (kz j) in Hx2. apply kz_inj in Hx2. subst; reflexivity. }
+      set (mp := filter (is_k (kz i)) (rev (map zs miss))) in *.
+      unfold spec_for. destruct (filter (is_k (kz i)) B) as [|b [|b2 t]].
+      - rewrite app_nil_r. intros H. apply Hmp. rewrite H. left; reflexivity.
+      - intros H. destruct mp as [|m [|m2 mp']]; simpl in H; inversion H; reflexivity.
+      - intros H. apply (f_equal (@length _)) in H. rewrite app_length in H. simpl in H. lia.
+    Qed.
+
+    Lemma cmd_of_key (l : list s2) k : In k (map s2key l) -> exists x, In x l /\ s2key x = k.
+    Proof. rewrite in_map_iff. intros [x [H1 H2]]; eauto. Qed.
+
+    Lemma key_fields (x : s2) i : s2key x = kz i -> mi x = i /\ mj x = i + N.
+    Proof. unfold Model.s2key, kz. intros H; inversion H; auto. Qed.
+
+    (* the result is B1 itself and its keys are duplicate-free *)
+    Lemma ok_case : NoDup keys1 ->
+      length B1 = N /\ forall i, i < N -> exists c, filter (is_k (kz i)) B1 = [c] /\ mi c = i /\ mj c = i + N /\ spec_for B i c.
+    Proof.
+      intros Hnd. split.
+      - rewrite <- (map_length s2key). apply length_from_nodup; auto; [apply incl1 | apply incl2].
+      - intros i Hi. destruct (cmd_of_key B1 (kz i) (incl2 i Hi)) as [x [Hx Hk]].
+        exists x. pose proof (filter_single B1 x Hnd Hx) as Hf. rewrite Hk in Hf.
+        destruct (key_fields x i Hk). repeat split; auto. apply spec_from_B1; auto.
+    Qed.
+
+    Theorem s2_stage_correct :
+      match s2_stage K kzero kadd kneg kneq N miss B with
+      | IndexErr => False
+      | CircuitErr c =>
+          c = 3 /\ exists k, 1 < count_key k (map s2key B) /\ phases_agree (rev (filter (is_k k) B)) = false
+      | Ok out =>
+          length out = N /\
+          forall i, i < N -> exists c, filter (is_k (kz i)) out = [c] /\ mi c = i /\ mj c = i + N /\ spec_for B i c
+      end.
+    Proof.
+      unfold s2_stage. rewrite Hall. simpl negb. cbv iota. rewrite add_missing_eq.
+      fold B1. fold keys1.
+      destruct (N <? length keys1) eqn:Elen.
+      2:{ apply Nat.ltb_ge in Elen. apply ok_case.
+          apply (NoDup_incl_NoDup AK_nodup); [rewrite AK_length; auto|].
+          intros k Hk. apply AK_in in Hk as [i [Hi ->]]. apply incl2; auto. }
+      clear Elen. rewrite list_duplicates_eq, map_map. simpl. rewrite map_id.
+      destruct (first_occ_spec keys1 []) as [Hfo1 Hfo2].
+      set (D := filter (fun k => 1 <? count_key k keys1) (first_occ [] keys1)).
+      assert (HinD : forall k, In k D <-> 1 < count_key k keys1).
+      { intros k. unfold D. rewrite filter_In, Nat.ltb_lt, Hfo2. split; [tauto|]. intros H. split; auto. split; [apply count_in; lia | tauto]. }
+      assert (HndD : NoDup D) by (apply NoDup_filter; auto).
+      assert (Ebs : forall k, In k D -> filter (is_k k) B1 = filter (is_k k) B).
+      { intros k Hk. apply HinD in Hk. destruct (dup1_dupB k Hk) as [Hm0 _].
+        unfold B1. rewrite filter_app. replace (filter (is_k k) (rev (map zs miss))) with (@nil s2); auto.
+        symmetry. apply length_zero_iff_nil. rewrite <- count_cmd, keys_miss. exact Hm0. }
+      assert (Hle1 : forall k, ~ In k D -> count_key k keys1 <= 1).
+      { intros k Hn. destruct (le_lt_dec (count_key k keys1) 1); auto. apply HinD in l. contradiction. }
+      pose proof (merge_loop_spec D B1 HndD) as Hspec. unfold keys1 in *.
+      destruct (merge_loop D B1) as [out|c|]; [| |exact Hspec].
+      2:{ destruct Hspec as [Hc [k [Hk Hph]]]. split; auto. exists k. rewrite <- (Ebs k Hk). split; auto.
+          apply HinD in Hk. apply dup1_dupB in Hk. tauto. }
+      destruct Hspec as [Hph Hperm].
+      set (MS := map (fun k => merged k B1) D) in *.
+      set (R := filter (fun c => negb (inD D c)) B1) in *.
+      assert (HR_in : forall x, In x R <-> In x B1 /\ ~ In (s2key x) D).
+      { intros x. unfold R, inD. rewrite filter_In. split; intros [H1 H2]; split; auto.
+        - intros Hin. apply mem_key_in in Hin. rewrite Hin in H2. discriminate.
+        - destruct (mem_key (s2key x) D) eqn:E; auto. apply mem_key_in in E. contradiction. }
+      assert (Hin_out : forall x, In x out <-> In x MS \/ In x R).
+      { intros x. rewrite <- in_app_iff. split; intros H.
+        - apply (Permutation_in _ Hperm); auto.
+        - apply (Permutation_in _ (Permutation_sym Hperm)); auto. }
+      assert (HkMS : map s2key MS = D).
+      { unfold MS. rewrite map_map. rewrite <- (map_id D) at 2. apply map_ext. intros k. apply merged_key. }
+      assert (Hnd_keys : NoDup (D ++ map s2key R)).
+      { apply nodup_count. intros k. rewrite count_app, count_cmd.
+        destruct (mem_key k D) eqn:E.
+        - apply mem_key_in in E. pose proof (count_nodup D HndD k).
+          rewrite (filter_false (is_k k) R); [simpl; lia|].
+          intros x Hx. apply HR_in in Hx as [_ Hx]. unfold Merge.is_k.
+          destruct (key_eqb (s2key x) k) eqn:E2; auto. apply key_eqb_eq in E2. subst. contradiction.
+        - assert (Hn : ~ In k D) by (intros Hin; apply mem_key_in in Hin; congruence).
+          assert (E0 : count_key k D = 0). { destruct (count_key k D) eqn:E3; auto. exfalso. apply Hn. apply count_in. lia. }
+          rewrite E0. unfold R. etransitivity; [apply filter_filter_length|]. rewrite <- count_cmd. apply Hle1; auto. }
+      assert (Hnd_out : NoDup (map s2key out)).
+      { apply (Permutation_NoDup (l := D ++ map s2key R)); auto.
+        symmetry. rewrite <- HkMS, <- map_app. apply Permutation_map; auto. }
+      split.
+      + rewrite <- (map_length s2key). apply length_from_nodup; auto.
+        * intros k Hk. apply cmd_of_key in Hk as [x [Hx Hk]]. apply Hin_out in Hx as [Hx|Hx].
+          -- apply incl1. subst k. assert (Hin : In (s2key x) D) by (rewrite <- HkMS; apply in_map; auto).
+             apply HinD in Hin. apply count_in. unfold keys1. lia.
+          -- apply incl1. subst k. apply in_map. apply HR_in in Hx. tauto.
+        * intros i Hi. destruct (mem_key (kz i) D) eqn:E.
+          -- apply mem_key_in in E. rewrite <- (merged_key (kz i) B1). apply in_map. apply Hin_out. left.
+             unfold MS. apply (in_map (fun k => merged k B1)); auto.
+          -- destruct (cmd_of_key B1 (kz i) (incl2 i Hi)) as [x [Hx Hk]]. rewrite <- Hk. apply in_map.
+             apply Hin_out. right. apply HR_in. split; auto. rewrite Hk. intros Hin. apply mem_key_in in Hin. congruence.
+      + intros i Hi. destruct (mem_key (kz i) D) eqn:E.
+        * apply mem_key_in in E. exists (merged (kz i) B1).
+          assert (Hin : In (merged (kz i) B1) out).
+          { apply Hin_out. left. unfold MS. apply (in_map (fun k => merged k B1)); auto. }
+          pose proof (filter_single out _ Hnd_out Hin) as Hf. rewrite merged_key in Hf.
+          split; auto. split; [reflexivity|]. split; [reflexivity|].
+          unfold spec_for. pose proof (Hph _ E) as Hp. rewrite (Ebs _ E) in Hp.
+          assert (Hlen : 1 < length (filter (is_k (kz i)) B)).
+          { rewrite <- count_cmd. apply HinD in E. apply dup1_dupB in E. tauto. }
+          unfold Merge.merged. rewrite (Ebs _ E).
+          destruct (filter (is_k (kz i)) B) as [|b1 [|b2 t]] eqn:Ef; simpl in Hlen; try lia.
+          split; auto.
+        * assert (Hn : ~ In (kz i) D) by (intros Hin; apply mem_key_in in Hin; congruence).
+          destruct (cmd_of_key B1 (kz i) (incl2 i Hi)) as [x [Hx Hk]].
+          assert (Hxr : In x R) by (apply HR_in; split; auto; rewrite Hk; auto).
+          exists x. pose proof (filter_single out x Hnd_out (proj2 (Hin_out x) (or_intror Hxr))) as Hf.
+          rewrite Hk in Hf. destruct (key_fields x i Hk). repeat split; auto.
+          apply spec_from_B1. apply length_le1_in.
+          -- rewrite <- count_cmd. apply Hle1; auto.
+          -- apply filter_In. split; auto. unfold Merge.is_k. rewrite Hk. apply key_eqb_refl.
+    Qed.
+  End Hyps.
+End Full.
